@@ -70,8 +70,8 @@ theorem typeNameOf_rel (dts : List DataType) (b : Nat) (n : String) :
           · cases hb'
 
 /-- the declared class elements, relationally: exactly the classes whose containment chain reaches the component -/
-theorem xsd_classes_rel {d : ClassDiagram} (tree : TreeOk d.containers) (comp : Nat) (xc : XClass) :
-    xc ∈ (xsdSpec d comp).classes ↔ ∃ c ∈ d.classes, Reaches d.containers comp c.parent ∧ xc = xclassAll d c := by
+theorem xsd_classes_rel {d : ClassDiagram} (tree : TreeOk d.containers d.pkgrefs) (comp : Nat) (xc : XClass) :
+    xc ∈ (xsdSpec d comp).classes ↔ ∃ c ∈ d.classes, Reaches d.containers d.pkgrefs comp c.parent ∧ xc = xclassAll d c := by
   simp only [xsdSpec, List.mem_map, List.mem_filter]
   constructor
   · rintro ⟨c, ⟨hc, hs⟩, rfl⟩
@@ -80,29 +80,34 @@ theorem xsd_classes_rel {d : ClassDiagram} (tree : TreeOk d.containers) (comp : 
     exact ⟨c, ⟨hc, (contained_iff tree comp _).mpr hr⟩, rfl⟩
 
 /-- the declared simple types, relationally: the declarable data types that have no component on their containment
-    chain (global) or whose chain reaches the requested component -/
-theorem xsd_types_rel {d : ClassDiagram} (tree : TreeOk d.containers) (comp : Nat) (x : XType) :
+    chain (global) or whose chain — continued over package references — reaches the requested component -/
+theorem xsd_types_rel {d : ClassDiagram} (tree : TreeOk d.containers d.pkgrefs) (comp : Nat) (x : XType) :
     x ∈ (xsdSpec d comp).types ↔
-      ∃ t ∈ d.dts, (¬ InComp d.containers t.parent ∨ Reaches d.containers comp t.parent) ∧ xtypeOf d.dts t = some x := by
-  simp only [xsdSpec, List.mem_append, List.mem_filterMap, List.mem_filter]
+      ∃ t ∈ d.dts, (¬ InComp d.containers t.parent ∨ Reaches d.containers d.pkgrefs comp t.parent) ∧ xtypeOf d.dts t = some x := by
+  simp only [xsdSpec, List.mem_append, List.mem_filterMap, List.mem_filter, Bool.and_eq_true, Bool.not_eq_true']
   constructor
-  · rintro (⟨t, ⟨ht, hg⟩, hx⟩ | ⟨t, ⟨ht, hc⟩, hx⟩)
+  · rintro (⟨t, ⟨ht, hg⟩, hx⟩ | ⟨t, ⟨ht, hc, _⟩, hx⟩)
     · exact ⟨t, ht, Or.inl ((global_iff tree _).mp hg), hx⟩
     · exact ⟨t, ht, Or.inr ((contained_iff tree comp _).mp hc), hx⟩
-  · rintro ⟨t, ht, hs | hs, hx⟩
-    · exact Or.inl ⟨t, ⟨ht, (global_iff tree _).mpr hs⟩, hx⟩
-    · exact Or.inr ⟨t, ⟨ht, (contained_iff tree comp _).mpr hs⟩, hx⟩
+  · rintro ⟨t, ht, hs, hx⟩
+    cases hg : isGlobal d.containers t.parent with
+    | true => exact Or.inl ⟨t, ⟨ht, hg⟩, hx⟩
+    | false =>
+      rcases hs with hs | hs
+      · rw [(global_iff tree _).mpr hs] at hg; cases hg
+      · exact Or.inr ⟨t, ⟨ht, (contained_iff tree comp _).mpr hs, hg⟩, hx⟩
 
-/-- a data type is never declared twice: global and contained exclude each other -/
-theorem global_contained_disjoint {cs : List Container} {root : Nat} {p : Parent} (h : Reaches cs root p) : InComp cs p :=
+/-- WITHOUT package references global and contained exclude each other -/
+theorem global_contained_disjoint {cs : List Container} {root : Nat} {p : Parent} (h : Reaches cs [] root p) : InComp cs p :=
   reaches_inComp h
 
-/-! ### the two type loops of `build_schema` are disjoint -/
+/-! ### the two type loops of `build_schema` -/
 
-/-- what is contained in a component is not global: both walks follow the same containers, and the one that reaches the
-    component passes a C_C row, where `is_global` stops with False (no hypothesis on the containment needed) -/
+/-- without package references: what is contained in a component is not global: both walks follow the same containers, and
+    the one that reaches the component passes a C_C row, where `is_global` stops with False (no hypothesis on the
+    containment needed) -/
 theorem containedFuel_not_global (cs : List Container) (root : Nat) :
-    ∀ (f : Nat) (p : Parent), containedFuel cs root f p = true → globalFuel cs f p = false := by
+    ∀ (f : Nat) (p : Parent), containedFuel cs [] root f p = true → globalFuel cs f p = false := by
   intro f
   induction f with
   | zero => intro p h; simp [containedFuel] at h
@@ -115,7 +120,9 @@ theorem containedFuel_not_global (cs : List Container) (root : Nat) :
       simp only [globalFuel]
       cases hk : findContainer cs false q with
       | none => simp [hk] at h
-      | some k => simp only [hk] at h ⊢; exact ih _ h
+      | some k =>
+        simp only [hk, List.any_nil, Bool.or_false] at h ⊢
+        exact ih _ h
     | comp c =>
       simp only [containedFuel] at h
       simp only [globalFuel]
@@ -123,8 +130,130 @@ theorem containedFuel_not_global (cs : List Container) (root : Nat) :
       | none => simp [hk] at h
       | some k => simp
 
-theorem contained_not_global (cs : List Container) (root : Nat) (p : Parent) (h : containedIn cs root p = true) :
+theorem contained_not_global_plain (cs : List Container) (root : Nat) (p : Parent) (h : containedIn cs [] root p = true) :
     isGlobal cs p = false :=
   containedFuel_not_global cs root _ p h
+
+/-- the S_DT rows `build_schema` declares, in the order of its two loops: the global ones, then those contained in the
+    component that are NOT global -/
+def declaredDts (d : ClassDiagram) (comp : Nat) : List DataType :=
+  d.dts.filter (fun t => isGlobal d.containers t.parent) ++
+    d.dts.filter (fun t => containedIn d.containers d.pkgrefs comp t.parent && !isGlobal d.containers t.parent)
+
+theorem xsdSpec_types_eq (d : ClassDiagram) (comp : Nat) :
+    (xsdSpec d comp).types = (declaredDts d comp).filterMap (xtypeOf d.dts) := by
+  unfold xsdSpec declaredDts
+  simp only [List.filterMap_append]
+
+theorem declaredDts_mem {d : ClassDiagram} {comp : Nat} {t : DataType} :
+    t ∈ declaredDts d comp ↔
+      t ∈ d.dts ∧ (isGlobal d.containers t.parent = true ∨ containedIn d.containers d.pkgrefs comp t.parent = true) := by
+  unfold declaredDts
+  simp only [List.mem_append, List.mem_filter, Bool.and_eq_true, Bool.not_eq_true']
+  constructor
+  · rintro (⟨h, hg⟩ | ⟨h, hc, _⟩)
+    · exact ⟨h, Or.inl hg⟩
+    · exact ⟨h, Or.inr hc⟩
+  · rintro ⟨h, hs⟩
+    cases hg : isGlobal d.containers t.parent with
+    | true => exact Or.inl ⟨h, rfl⟩
+    | false =>
+      rcases hs with hs | hs
+      · rw [hs] at hg; cases hg
+      · exact Or.inr ⟨h, hs, rfl⟩
+
+/-- no S_DT row is taken by both loops — whether or not it is global AND contained (a data type of a global package
+    that a package of the component refers to is): the names of the declared rows are distinct when the names of the
+    data types are -/
+theorem declaredDts_names_nodup {d : ClassDiagram} (comp : Nat) (hn : (d.dts.map (·.name)).Nodup) :
+    ((declaredDts d comp).map (·.name)).Nodup := by
+  unfold declaredDts
+  rw [List.map_append, List.nodup_append]
+  refine ⟨List.Nodup.sublist (List.Sublist.map _ List.filter_sublist) hn,
+    List.Nodup.sublist (List.Sublist.map _ List.filter_sublist) hn, ?_⟩
+  intro a ha b hb hab
+  obtain ⟨x, hx, rfl⟩ := List.mem_map.mp ha
+  obtain ⟨y, hy, rfl⟩ := List.mem_map.mp hb
+  obtain ⟨hxm, hxg⟩ := List.mem_filter.mp hx
+  obtain ⟨hym, hyg⟩ := List.mem_filter.mp hy
+  have := eq_of_key_eq (fun (t : DataType) => t.name) hn hxm hym hab
+  subst this
+  simp only [Bool.and_eq_true, Bool.not_eq_true'] at hyg
+  rw [hyg.2] at hxg
+  cases hxg
+
+theorem xtypeOf_name {dts : List DataType} {t : DataType} {x : XType} (h : xtypeOf dts t = some x) : x.name = t.name := by
+  unfold xtypeOf at h
+  cases hk : t.kind with
+  | core n =>
+    rw [hk] at h
+    cases hc : coreXs t.name with
+    | none => simp [hc] at h
+    | some b => simp only [hc, Option.map_some, Option.some.injEq] at h; subst h; rfl
+  | enum es => rw [hk] at h; simp only [Option.some.injEq] at h; subst h; rfl
+  | user b =>
+    rw [hk] at h
+    cases hc : typeNameOf dts b with
+    | none => simp [hc] at h
+    | some bn => simp only [hc, Option.map_some, Option.some.injEq] at h; subst h; rfl
+  | other => rw [hk] at h; cases h
+
+theorem filterMap_names_sublist (dts : List DataType) :
+    ∀ l : List DataType, ((l.filterMap (xtypeOf dts)).map XType.name).Sublist (l.map (·.name)) := by
+  intro l
+  induction l with
+  | nil => exact List.Sublist.slnil
+  | cons a t ih =>
+    simp only [List.filterMap_cons, List.map_cons]
+    cases ha : xtypeOf dts a with
+    | none => exact List.Sublist.cons _ ih
+    | some x =>
+      simp only [List.map_cons, xtypeOf_name ha]
+      exact List.Sublist.cons_cons _ ih
+
+/-- DECLARED EXACTLY ONCE: a declarable data type that is global or contained in the component — or both — has exactly
+    one `xs:simpleType` of its name in the schema -/
+theorem xsd_declared_once {d : ClassDiagram} (comp : Nat) (hn : (d.dts.map (·.name)).Nodup) {t : DataType} {x : XType}
+    (ht : t ∈ d.dts)
+    (hs : isGlobal d.containers t.parent = true ∨ containedIn d.containers d.pkgrefs comp t.parent = true)
+    (hx : xtypeOf d.dts t = some x) :
+    ((xsdSpec d comp).types.map XType.name).count t.name = 1 ∧ x ∈ (xsdSpec d comp).types := by
+  rw [xsdSpec_types_eq]
+  have hnd : (((declaredDts d comp).filterMap (xtypeOf d.dts)).map XType.name).Nodup :=
+    List.Nodup.sublist (filterMap_names_sublist d.dts _) (declaredDts_names_nodup comp hn)
+  have hmem : x ∈ (declaredDts d comp).filterMap (xtypeOf d.dts) :=
+    List.mem_filterMap.mpr ⟨t, declaredDts_mem.mpr ⟨ht, hs⟩, hx⟩
+  refine ⟨?_, hmem⟩
+  rw [hnd.count, if_pos]
+  exact List.mem_map.mpr ⟨x, hmem, xtypeOf_name hx⟩
+
+/-- CONSERVATIVE EXTENSION: without EP_PKGREF rows the second loop's `and not is_global(...)` filters nothing — `xsdSpec`
+    is what the reference-free model computed (global types, then the types contained in the component) -/
+theorem xsdSpec_no_pkgref (d : ClassDiagram) (comp : Nat) (h : d.pkgrefs = []) :
+    (xsdSpec d comp).types =
+      (d.dts.filter (fun t => isGlobal d.containers t.parent)).filterMap (xtypeOf d.dts) ++
+      (d.dts.filter (fun t => containedFuelPlain d.containers comp (d.containers.length + 1) t.parent)).filterMap (xtypeOf d.dts) ∧
+    (xsdSpec d comp).classes =
+      (d.classes.filter (fun c => containedFuelPlain d.containers comp (d.containers.length + 1) c.parent)).map (xclassAll d) := by
+  unfold xsdSpec
+  simp only [h]
+  constructor
+  · congr 2
+    apply List.filter_congr
+    intro t _
+    cases hc : containedIn d.containers [] comp t.parent with
+    | false =>
+      have := containedFuel_no_pkgref d.containers comp (d.containers.length + 1) t.parent
+      unfold containedIn at hc
+      rw [← this, hc]; rfl
+    | true =>
+      have := containedFuel_no_pkgref d.containers comp (d.containers.length + 1) t.parent
+      rw [contained_not_global_plain _ _ _ hc]
+      unfold containedIn at hc
+      rw [← this, hc]; rfl
+  · congr 1
+    apply List.filter_congr
+    intro c _
+    exact containedFuel_no_pkgref d.containers comp _ c.parent
 
 end Pyx.Extract
